@@ -74,6 +74,17 @@ fn enumerate_notes(tier: Tier, c10: bool, emit: &mut dyn FnMut(&str)) {
         }
     }
     if !c10 {
+        // a reference / a sub-section at the sixth heading level (inlined or extracted content goes
+        // one level further down)
+        for owner in owners() {
+            let two = if owner == "1" { "2" } else { "../2" };
+            for tail in [format!("[two]({})\n", two), format!("text\n\n[two]({})\n", two), "text\n".to_string()] {
+                let text = format!("# a\n\n## b\n\n### c\n\n#### d\n\n##### e\n\n###### f\n\n{}", tail);
+                emit(&format!("owner={}|text={}", owner, text.replace('\n', "\\n")));
+                let text5 = format!("# a\n\n## b\n\n### c\n\n#### d\n\n##### e\n\n{}", tail);
+                emit(&format!("owner={}|text={}", owner, text5.replace('\n', "\\n")));
+            }
+        }
         // a section with three own blocks, one of them of each kind in turn, before its sub-sections
         // (the reference left by extract / the text put in by inline go behind the own blocks)
         let kinds: &[(&str, &str)] = &[
